@@ -163,11 +163,16 @@ class NestedDictRAMDataStore(datastore.DataStore):
   def create_trial(self, trial: study_pb2.Trial) -> resources.TrialResource:
     resource = resources.TrialResource.from_name(trial.name)
     with self._lock:
-      trial_protos = (
-          self._owners[resource.owner_id]
-          .studies[resource.study_id]
-          .trial_protos
-      )
+      try:
+        trial_protos = (
+            self._owners[resource.owner_id]
+            .studies[resource.study_id]
+            .trial_protos
+        )
+      except KeyError as err:
+        raise custom_errors.NotFoundError(
+            'Study does not exist:', resource.study_resource.name
+        ) from err
       if resource.trial_id in trial_protos:
         raise custom_errors.AlreadyExistsError(
             'Trial %s already exists' % trial.name
